@@ -25,6 +25,8 @@ var exprBases = []string{
 	"#\n", "if true {\n  #\n}\n", "if false {\n} else {\n  #\n}\n", "for x in [1] {\n  p(x)\n}\n#\n", "for x in [1] {\n  if true {\n    #\n  }\n}\n",
 	"for x in [1] {\n  if true {\n    break\n  }\n  #\n}\n", "for i = 0; i < 2; i = i + 1 {\n  if i == 1 {\n    continue\n  }\n  x = @\n}\n", "for x in [1] {\n  break\n  #\n}\n",
 	"for x in [1] {\n  for y in [2] {\n    break\n  }\n  #\n}\n", "for x in [1] {\n  if false {\n  } else {\n    continue\n  }\n  y = [@]\n}\n", "for x in [1] {\n  if x == 2 {\n    break\n  }\n}\nx = @\n",
+	// (round 7: surplus right-hand values, computed map keys)
+	"a = 1, @\n", "a = 1, 2, [@]\n", "x = {@: 1}\n", "x = {\"k\" + @: 1}\n", "x = {(@): 1}\n", "l = [1]\nx = {l[@]: 1}\n", "x = {\"a\": 1, -@: 2}\n",
 	"for i = 0; i < 1; i = i + 1 {\n  #\n}\n", "for i = 0; i < 1; i = i + 1 {\n}\n#\n", "for x in [1] {\n  for y in [2] {\n  }\n  #\n}\n", "if true {\n  for x in [1] {\n  }\n  #\n}\n",
 }
 
@@ -127,7 +129,12 @@ func genC09(e *emitter, tier string, seed int64) {
 		"dir-both":      {{"a.p", "use(\"lib/b.p\")\nuse(\"b.p\")\n"}, {"b.p", "p(1)\n"}, {"lib/b.p", "p(2)\n"}},
 		"dir-same-base": {{"a.p", "use(\"lib/a.p\")\n"}, {"lib/a.p", "p(1)\n"}},
 		"dir-empty":     {{"a.p", "use(\"\")\n"}, {"b.p", "use(\"./b.p\")\n"}, {"c.p", "use(\"c.p/\")\n"}},
-		"bad-leaf":      {{"a.p", "p(0)\n\nuse(\"b.p\")\n"}, {"b.p", "p(0)\n  use(\"c.p\")\n"}, {"c.p", "p(1)\n\n\n   use(\"x.p\")\n"}},
+		// (round 7: an argument shape the linker refuses — the error is located and carries the chain of users)
+		"kw-name":   {{"a.p", "p(0)\n  use(name=\"b.p\")\n"}, {"b.p", "p(1)\n"}, {"c.p", "p(2)\nuse(\"a.p\")\n"}, {"d.p", "if true {\n  use(\"c.p\")\n}\n"}},
+		"kw-name2":  {{"a.p", "x = [use(name=\"x.p\")]\n"}, {"c.p", "use(\"a.p\")\n"}},
+		"two-args":  {{"a.p", "use(\"b.p\", \"c.p\")\n"}, {"b.p", "p(1)\n"}, {"c.p", "use(\"a.p\")\n"}},
+		"paren-arg": {{"a.p", "use((\"b.p\"))\n"}, {"b.p", "p(1)\n"}, {"c.p", "use(\"a.p\")\n"}},
+		"bad-leaf":  {{"a.p", "p(0)\n\nuse(\"b.p\")\n"}, {"b.p", "p(0)\n  use(\"c.p\")\n"}, {"c.p", "p(1)\n\n\n   use(\"x.p\")\n"}},
 	}
 	// use() calls in every statement and expression context (loops with conditional and unconditional
 	// break/continue before the call, nested blocks, operands, arguments): the call is registered, linked and
